@@ -153,7 +153,7 @@ def _grid():
 
     rnd = random.Random(13)
     N, S = P("N", 2), P("S", 1)
-    X, Y = P("X", (0, 0)), P("Y", (0, 0))
+    X, Y, Z = P("X", (0, 0)), P("Y", (0, 0)), P("Z", (0, 0))
     out = []
     for _ in range(150):
         ns = [rnd.randint(0, N) if i < S else 0 for i in range(3)]
@@ -161,7 +161,7 @@ def _grid():
         p0 = rnd.randint(0, N + 1)
         if P("op") in ("nlargest", "nsmallest", "enumerate"):
             p0 = rnd.randint(-1, 1)
-        out.append(tuple([rnd.choice([-1, 0, 1, 1, 2]) for _ in range(8)] + ns + [p0, rnd.randint(0, N + 2), rnd.randint(1, 3)] + b + [rnd.randint(X[0], X[1]), rnd.randint(Y[0], Y[1]), 0]))
+        out.append(tuple([rnd.choice([-1, 0, 1, 1, 2]) for _ in range(8)] + ns + [p0, rnd.randint(0, N + 2), rnd.randint(1, 3)] + b + [rnd.randint(X[0], X[1]), rnd.randint(Y[0], Y[1]), rnd.randint(Z[0], Z[1])]))
     return out
 
 
@@ -181,6 +181,12 @@ def jobs(tier):
         # all 7 exception kinds with one item per source; the three kinds the library could
         # treat specially (Exception, AttributeError, BaseException subclass) at full length
         ysplit = kw.pop("ysplit", False)
+        yonly = kw.pop("yonly", None)
+        if yonly is not None:
+            part = {"op": op, "S": S, "N": N, "X": (1, min(uses, 2 * N * S + S + 1)), "Y": yonly}
+            part.update(kw)
+            J.append({"module": "c06", "fn": "h_fault", "part": part, "timeout": T})
+            return
         for n, yr in (((1, (0, 3)), (1, (4, NF - 1))) if ysplit else ((1, (0, NF - 1)),)) + ((N, (0, 2) if q else (0, NF - 1)),):
             if q and n > 1 and kw.get("fl") == "iter":
                 continue
@@ -218,6 +224,13 @@ def jobs(tier):
     # a source whose aclose() returns something truthy must not make the tool swallow the fault
     for op in ("filter", "enumerate", "accumulate_f", "takewhile", "starmap", "list", "sum" if False else "max", "sorted", "reduce"):
         add(op, 1, N1, 2 * N1 + 2, fl="acls", ffl="def", aclose_ret=True)
+    # a callable of an awaitable aggregation raising StopAsyncIteration (fault kind 7): inside a
+    # coroutine nothing converts it, so it must surface unchanged like any other exception
+    for op in ("reduce", "min", "max", "sorted", "nlargest", "nsmallest", "all", "any"):
+        if op in ("all", "any"):
+            continue  # no callable
+        add(op, 1, 2, 4, fl="agen", ffl="def", Z=(3, 3), yonly=(7, 7))
+        add(op, 1, 2, 4, fl="acls", ffl="adef", Z=(3, 3), yonly=(7, 7))
     for key in ("none", "def", "adef"):
         for fl in ("agen", "acls"):
             J.append({"module": "c06", "fn": "h_fault_groupby", "part": {"N": (2 if q else 3), "key": key, "fl": fl}, "timeout": T})
